@@ -167,9 +167,11 @@ structure InvC (s : St) : Prop where
   shutExited : s.sd = .shut → s.w = .exited
   retSd : s.sdRetOk = true → s.sd = .shut
   sdStop : (s.sd = .closed ∨ s.sd = .shut) → s.stopClosed = true
+  errSd : s.sdRetErr = true → (s.sd = .stored ∨ s.sd = .closed ∨ s.sd = .shut)
+  okErr : s.sdRetOk = true → s.sdRetErr = false
 
 theorem stepC (s s' : St) (l : Lbl) (h : InvC s) (hB : InvB s) (hs : step s l = some s') : InvC s' := by
-  obtain ⟨h1, h2, h3, h4, h5, h6, h7, h8⟩ := h
+  obtain ⟨h1, h2, h3, h4, h5, h6, h7, h8, h9, h10⟩ := h
   have hbe := hB.busyEmpty
   cases l <;> simp only [step] at hs
   all_goals (
@@ -177,8 +179,8 @@ theorem stepC (s s' : St) (l : Lbl) (h : InvC s) (hB : InvB s) (hs : step s l = 
     all_goals (try (simp at hs))
     all_goals (try subst hs)
     all_goals (first
-      | exact ⟨h1, h2, h3, h4, h5, h6, h7, h8⟩
-      | (refine ⟨?_, ?_, ?_, ?_, ?_, ?_, ?_, ?_⟩ <;> simp_all [afterExport] <;> grind)
+      | exact ⟨h1, h2, h3, h4, h5, h6, h7, h8, h9, h10⟩
+      | (refine ⟨?_, ?_, ?_, ?_, ?_, ?_, ?_, ?_, ?_, ?_⟩ <;> simp_all [afterExport] <;> grind)
       | skip))
 
 def placed (s : St) (id : Nat) : Prop :=
